@@ -1,0 +1,160 @@
+#pragma once
+
+// Verification hooks for the fiber fault-injection backend.
+// Everything in this file is compiled only with -DYACLIB_VERIF; without it the file is empty.
+#ifdef YACLIB_VERIF
+
+#  include <atomic>
+#  include <cstddef>
+#  include <cstdint>
+#  include <type_traits>
+
+namespace yaclib::verif {
+
+enum Op : int {
+  kLoad = 0,
+  kStore = 1,
+  kExchange = 2,
+  kCasWeak = 3,
+  kCasStrong = 4,
+  kFetchAdd = 5,
+  kFetchSub = 6,
+  kFetchAnd = 7,
+  kFetchOr = 8,
+  kFetchXor = 9,
+  // sync objects
+  kLock = 20,
+  kTryLock = 21,
+  kUnlock = 22,
+  kPark = 23,        // a fiber is about to block on a wait queue
+  kParkTimed = 24,   // same, with a deadline
+  kNotifyOne = 25,   // res = 1 if a fiber was made runnable
+  kNotifyAll = 26,
+  kWake = 27,        // a fiber returned from a wait queue; res = 1 if by timeout
+};
+
+struct Hooks {
+  // choice hooks: return a negative number to fall back to the built-in (random) behaviour
+  int (*preempt)(void* ctx, int others) = nullptr;                    // 0 / 1; others = another fiber could run
+  int (*pick)(void* ctx, unsigned n) = nullptr;                       // index in [0, n)
+  int (*fail_weak)(void* ctx) = nullptr;                              // 0 / 1
+  long long (*rand)(void* ctx, unsigned long long max) = nullptr;     // value in [0, max)
+  // trace hooks
+  void (*on_resume)(void* ctx, unsigned long long fiber_id) = nullptr;
+  void (*on_atomic)(void* ctx, const void* obj, int op, int ord_success, int ord_failure, unsigned long long arg,
+                    unsigned long long expected, unsigned long long result, int ok) = nullptr;
+  void (*on_sync)(void* ctx, const void* obj, int op, int res) = nullptr;
+  void* ctx = nullptr;
+};
+
+inline Hooks gHooks{};
+
+template <typename T>
+inline unsigned long long ToWord(const T& v) noexcept {
+  if constexpr (std::is_pointer_v<T>) {
+    return static_cast<unsigned long long>(reinterpret_cast<std::uintptr_t>(v));
+  } else if constexpr (std::is_integral_v<T> || std::is_enum_v<T>) {
+    return static_cast<unsigned long long>(v);
+  } else {
+    return 0;
+  }
+}
+
+inline void OnSync(const void* obj, int op, int res) noexcept {
+  if (gHooks.on_sync != nullptr) {
+    gHooks.on_sync(gHooks.ctx, obj, op, res);
+  }
+}
+
+// Sits between yaclib::detail::Atomic (which brackets every operation with injection points) and the
+// fiber implementation, so that the report is made in the same scheduling step as the operation itself.
+template <typename Impl, typename T>
+class TracedAtomic : public Impl {
+ public:
+  using Impl::Impl;
+
+  void store(T desired, std::memory_order order) noexcept {
+    Impl::store(desired, order);
+    Report(kStore, order, order, ToWord(desired), 0, 0, 1);
+  }
+
+  T load(std::memory_order order) const noexcept {
+    auto r = Impl::load(order);
+    Report(kLoad, order, order, 0, 0, ToWord(r), 1);
+    return r;
+  }
+
+  T exchange(T desired, std::memory_order order) noexcept {
+    auto r = Impl::exchange(desired, order);
+    Report(kExchange, order, order, ToWord(desired), 0, ToWord(r), 1);
+    return r;
+  }
+
+  bool compare_exchange_weak(T& expected, T desired, std::memory_order success, std::memory_order failure) noexcept {
+    auto e = ToWord(expected);
+    bool ok = Impl::compare_exchange_weak(expected, desired, success, failure);
+    Report(kCasWeak, success, failure, ToWord(desired), e, ToWord(expected), ok ? 1 : 0);
+    return ok;
+  }
+  bool compare_exchange_weak(T& expected, T desired, std::memory_order order) noexcept {
+    auto e = ToWord(expected);
+    bool ok = Impl::compare_exchange_weak(expected, desired, order);
+    Report(kCasWeak, order, order, ToWord(desired), e, ToWord(expected), ok ? 1 : 0);
+    return ok;
+  }
+  bool compare_exchange_strong(T& expected, T desired, std::memory_order success, std::memory_order failure) noexcept {
+    auto e = ToWord(expected);
+    bool ok = Impl::compare_exchange_strong(expected, desired, success, failure);
+    Report(kCasStrong, success, failure, ToWord(desired), e, ToWord(expected), ok ? 1 : 0);
+    return ok;
+  }
+  bool compare_exchange_strong(T& expected, T desired, std::memory_order order) noexcept {
+    auto e = ToWord(expected);
+    bool ok = Impl::compare_exchange_strong(expected, desired, order);
+    Report(kCasStrong, order, order, ToWord(desired), e, ToWord(expected), ok ? 1 : 0);
+    return ok;
+  }
+
+  template <typename A>
+  auto fetch_add(A arg, std::memory_order order) noexcept {
+    auto r = Impl::fetch_add(arg, order);
+    Report(kFetchAdd, order, order, ToWord(arg), 0, ToWord(r), 1);
+    return r;
+  }
+  template <typename A>
+  auto fetch_sub(A arg, std::memory_order order) noexcept {
+    auto r = Impl::fetch_sub(arg, order);
+    Report(kFetchSub, order, order, ToWord(arg), 0, ToWord(r), 1);
+    return r;
+  }
+  template <typename A>
+  auto fetch_and(A arg, std::memory_order order) noexcept {
+    auto r = Impl::fetch_and(arg, order);
+    Report(kFetchAnd, order, order, ToWord(arg), 0, ToWord(r), 1);
+    return r;
+  }
+  template <typename A>
+  auto fetch_or(A arg, std::memory_order order) noexcept {
+    auto r = Impl::fetch_or(arg, order);
+    Report(kFetchOr, order, order, ToWord(arg), 0, ToWord(r), 1);
+    return r;
+  }
+  template <typename A>
+  auto fetch_xor(A arg, std::memory_order order) noexcept {
+    auto r = Impl::fetch_xor(arg, order);
+    Report(kFetchXor, order, order, ToWord(arg), 0, ToWord(r), 1);
+    return r;
+  }
+
+ private:
+  void Report(int op, std::memory_order s, std::memory_order f, unsigned long long arg, unsigned long long expected,
+              unsigned long long result, int ok) const noexcept {
+    if (gHooks.on_atomic != nullptr) {
+      gHooks.on_atomic(gHooks.ctx, this, op, static_cast<int>(s), static_cast<int>(f), arg, expected, result, ok);
+    }
+  }
+};
+
+}  // namespace yaclib::verif
+
+#endif  // YACLIB_VERIF
